@@ -220,4 +220,100 @@ theorem truncate_all_with_pending_cut_witness :
     (run wStart [.write wChunk, .trunc 2, .workerWrite, .workerFin]).chunk (fun _ => 0) (2, 8) = .error .gt := by
   refine ⟨by decide, by decide, by rfl⟩
 
+/-! ### Repair after a crash: file numbering -/
+
+/-- every file number is at most the running maximum `DeleteCorrupted` computes -/
+theorem foldl_max_ge (l : List File) : ∀ (m : Nat), m ≤ l.foldl (fun m f => max m f.seq) m ∧
+    ∀ f ∈ l, f.seq ≤ l.foldl (fun m f => max m f.seq) m := by
+  induction l with
+  | nil => intro m; simp
+  | cons a t ih =>
+    intro m
+    simp only [List.foldl_cons]
+    obtain ⟨h1, h2⟩ := ih (max m a.seq)
+    refine ⟨by omega, ?_⟩
+    intro f hf
+    rcases List.mem_cons.mp hf with rfl | hf
+    · omega
+    · exact h2 f hf
+
+/-- **Repair**: `DeleteCorrupted(k)` on a freshly opened mapper (no current file) keeps exactly the files numbered below
+    `k`, and the eventual sequence is the highest number that REMAINS (what `cut()` will derive from the directory) — 0,
+    i.e. a clean restart of the numbering, when nothing remains.  It is not `k - 1`: after earlier truncations the file
+    before the corrupt one need not exist (`stale_sequence_after_repair_witness`). -/
+theorem repair_numbering (σ : St) (k : Nat) (hc : σ.cur = none) :
+    (σ.deleteCorrupted k).old = σ.old.filter (fun f => decide (f.seq < k)) ∧
+    (σ.deleteCorrupted k).cur = none ∧
+    (σ.deleteCorrupted k).eseq = (σ.deleteCorrupted k).maxSeq ∧
+    ((σ.deleteCorrupted k).old = [] → (σ.deleteCorrupted k).eseq = 0) := by
+  refine ⟨rfl, hc, ?_, ?_⟩
+  · simp [St.deleteCorrupted, St.maxSeq, hc]
+  · intro h
+    have h' : σ.old.filter (fun f => decide (f.seq < k)) = [] := h
+    show (σ.old.filter (fun f => decide (f.seq < k))).foldl (fun m f => max m f.seq) 0 = 0
+    rw [h']; rfl
+
+/-- **First write after a repair** (synchronous mapper): whatever was deleted, `WriteChunk` reports no error, hands out
+    the first position of file (highest remaining + 1) and the writer cuts exactly that file; the retained files are
+    untouched. -/
+theorem write_after_repair_ok (σ : St) (k : Nat) (c : Chunk) (hc : σ.cur = none) (hq : σ.q = 0) (he : σ.eoff = 0) :
+    let σ1 := σ.deleteCorrupted k
+    let r := σ1.writeChunk c
+    r.2.2 = some true ∧ r.2.1 = (σ1.maxSeq + 1, headerSize) ∧ r.1.curSeq = σ1.maxSeq + 1 ∧ r.1.old = σ1.old := by
+  obtain ⟨h1, h2, h3, _⟩ := repair_numbering σ k hc
+  have hq1 : (σ.deleteCorrupted k).q = 0 := hq
+  have he1 : (σ.deleteCorrupted k).eoff = 0 := he
+  generalize σ.deleteCorrupted k = σ1 at *
+  intro σ1' r
+  simp only [r, σ1', St.writeChunk, nextRef, shouldCut, he1, hq1]
+  by_cases hw : σ1.wbs ≤ c.data.length + maxMeta <;>
+    simp [St.procWrite, St.cutFile, St.flush, St.curSeq, St.maxSeq, h2, h3, flushFile, hw]
+
+/-- … and the chunk is readable under the returned reference (from the chunk buffer, or — a chunk at least as large as
+    the write buffer — from the new file; no retained file can shadow the new number). -/
+theorem read_after_repair (crc : Crc) (σ : St) (k : Nat) (c : Chunk) (hc : σ.cur = none) (hq : σ.q = 0) (he : σ.eoff = 0)
+    (hrm : σ.refMap = []) (wf : WFc c) (hv : validEnc c.enc = true) (hlen : headerSize + recLen c ≤ maxFileSize) :
+    let r := (σ.deleteCorrupted k).writeChunk c
+    r.1.chunk crc r.2.1 = .ok (c.enc, c.data) := by
+  obtain ⟨h1, h2, h3, _⟩ := repair_numbering σ k hc
+  have hq1 : (σ.deleteCorrupted k).q = 0 := hq
+  have he1 : (σ.deleteCorrupted k).eoff = 0 := he
+  have hrm1 : (σ.deleteCorrupted k).refMap = [] := hrm
+  generalize σ.deleteCorrupted k = σ1 at *
+  intro r
+  have hge := (foldl_max_ge σ1.old 0).2
+  simp only [r, St.writeChunk, nextRef, shouldCut, he1, hq1]
+  by_cases hw : σ1.wbs ≤ c.data.length + maxMeta
+  · simp [St.procWrite, St.cutFile, St.flush, St.curSeq, St.maxSeq, h2, h3, flushFile, hw, St.chunk, hrm1, lookup]
+    generalize List.foldl (fun m f => max m f.seq) 0 σ1.old = M at *
+    have hfind : List.find? (fun x => decide (x.seq = M + 1)) σ1.old = none := by
+      apply List.find?_eq_none.mpr
+      intro f hf
+      have := hge f hf
+      simp; omega
+    rw [hfind]
+    simp only [Option.getD_none]
+    have hd : File.disk crc ⟨M + 1, header, [((M + 1, headerSize), c)], 1, true⟩ =
+        header ++ (encodeRecord crc c ++ zeros (prealloc - (header ++ encodeRecord crc c).length)) := by
+      simp [File.disk, File.diskK, File.content, encodeRecs]
+    have hl : File.mmapLen crc ⟨M + 1, header, [((M + 1, headerSize), c)], 1, true⟩ = maxFileSize := by
+      simp [File.mmapLen]
+    have hh : header.length = headerSize := by decide
+    rw [hd, hl, ← hh]
+    exact readAt_record crc header _ c maxFileSize wf hv (by rw [hh]; exact hlen)
+  · simp [St.procWrite, St.cutFile, St.flush, St.curSeq, St.maxSeq, h2, h3, flushFile, hw, St.chunk, hrm1, lookup]
+
+example : (⟨0, 65536, 3, 0, false, [], [], .idle, 0, [], [⟨3, header, [], 0, false⟩], none, false⟩ : St).cur = none := rfl
+
+/-- What the seeded mistake looks like in the model: files 1 and 2 truncated away, file 3 corrupt and deleted, sequence
+    left at 3 - 1 = 2 with an empty directory: the next write expects file 3, `cut()` creates file 1, the callback
+    reports the `cutAndExpectRef` mismatch.  With the sequence `deleteCorrupted` really computes (0) the write is fine. -/
+theorem stale_sequence_after_repair_witness :
+    let σ : St := { init 0 65536 with old := [⟨3, header, [], 0, false⟩], eseq := 3 }
+    ((σ.deleteCorrupted 3).eseq = 0) ∧ ((σ.deleteCorrupted 3).old = []) ∧
+    (({ σ.deleteCorrupted 3 with eseq := 2 }).writeChunk wChunk).2.2 = some false ∧
+    ((σ.deleteCorrupted 3).writeChunk wChunk).2.2 = some true ∧
+    ((σ.deleteCorrupted 3).writeChunk wChunk).2.1 = (1, 8) := by
+  refine ⟨by decide, by decide, by decide, by decide, by decide⟩
+
 end Prom.C25
